@@ -49,6 +49,8 @@ def scenarios(tier, seed):
         add("real_kernel", kernel="rbf", n=2, m=2, cfg={})
         add("real_kernel", kernel="rq", n=2, m=1, cfg={"fpv": True})
         add("replaced_targets", n=2, m=2)
+        add("batched_targets", n=2, m=2, B=2, test_batched=False, cfg={})
+        add("batched_targets", n=2, m=1, B=3, test_batched=True, cfg={"fpv": True})
         add("multitask", n=2, t=2, m=1, cfg={})
         add("multitask", n=1, t=3, m=2, cfg={"fpv": True, "detach": False})
         add("multitask_noninterleaved", n=2, t=2, m=1)
@@ -67,6 +69,9 @@ def scenarios(tier, seed):
                     lik=["gaussian", "fixed", "fixed_learn"][(i + n) % 3], cfg=cfg, batch=0)
             add("stub_posterior", n=2, m=2, mean="constant", lik=["gaussian", "fixed"][i % 2], cfg=cfg, batch=2)
         add("replaced_targets", n=3, m=2)
+        for cfg in [{}, {"fpv": True}, {"lazy": False}, {"detach": False}]:
+            add("batched_targets", n=2, m=2, B=2, test_batched=False, cfg=cfg)
+            add("batched_targets", n=3, m=1, B=2, test_batched=True, cfg=cfg)
         for cfg in all_cfgs[:8] if "all_cfgs" in dir() else [{}, {"fpv": True}, {"lazy": False}, {"detach": False}]:
             add("multitask", n=2, t=2, m=1, cfg=cfg)
         add("kiss", nodes=[2, 3], fpv=False, symx=True)
@@ -216,6 +221,55 @@ def stub_posterior(S, n, m, mean, lik, cfg, batch, small_noise=False):
                     Cn[i, i] = Cn[i, i] + TN[b + (i,)] + (extra_s[b].reshape(-1)[0] if extra_s is not None else Sym.const(0.0))
                 S.prove_eq(pcov_t[b], Cn, tag + "likelihood(posterior, noise=test noise).cov adds the call-time noise")
                 S.prove_eq(pmean_t[b], Mref, tag + "likelihood(posterior, noise=test noise).mean")
+
+
+def batched_targets(S, n, m, B, test_batched, cfg):
+    """several target vectors (B, n) on SHARED un-batched training inputs, kernel, mean and likelihood; test inputs un-batched or
+       carrying the batch dimension: posterior element b = the conditional on target vector b (common covariance)"""
+    N = n + m
+    x = labels(0, n)
+    xs = labels(n, N, (B,) if test_batched else ())
+    y = S.randn(B, n)
+    likelihood = gpytorch.likelihoods.GaussianLikelihood()
+    Gs, Gc = S.factor("g", N)
+    table = torch.zeros(N, N)
+    model = StubGP(x, y, likelihood, TableKernel(table), make_mean("constant"))
+    for p in model.parameters():
+        p.requires_grad_(False)
+    model.eval(); likelihood.eval()
+    Y = S.sym_tensor(y, "y")
+    declare_params(S, model.mean_module, "mean_")
+    declare_params(S, likelihood, "lik_")
+    with S.mode():
+        sig = as_sym_arr(SH.get(likelihood.noise)).reshape(-1)[0]
+        J = Gs @ Gs.T
+        K = J.copy()
+        for i in range(n):
+            K[i, i] = K[i, i] - sig
+        with torch.no_grad():
+            table.copy_(Gc @ Gc.T)
+            for i in range(n):
+                table[i, i] -= sig.c
+        SH.put(table, K, check=True)
+        mall = as_sym_arr(SH.get(model.mean_module(labels(0, N))))
+        with settings_ctx(cfg):
+            out = S.must_not_raise("prediction with targets of batch shape (%d,) on shared un-batched inputs" % B, lambda: model(xs))
+            mean_t, var_t = out.mean, out.variance
+            cov_t = out.covariance_matrix
+            pvar_t = likelihood(out).variance
+    S.check_concrete(tuple(mean_t.shape) == (B, m), "posterior mean shape", str(tuple(mean_t.shape)))
+    S.check_concrete(tuple(var_t.shape) == (B, m), "posterior variance shape", str(tuple(var_t.shape)))
+    Gtr = Gs[:n, :n]
+    Ksx, Kss = K[n:, :n], K[n:, n:]
+    Bm = spd_solve(Gtr, Ksx.T)
+    Cref = Kss - Ksx @ Bm
+    cov_s = as_sym_arr(SH.get(cov_t))
+    for b in range(B):
+        alpha = spd_solve(Gtr, (Y[b] - mall[:n]).reshape(n, 1))
+        S.prove_eq(mean_t[b], (Ksx @ alpha).reshape(-1) + mall[n:], "b[%d].mean = conditional on target vector %d" % (b, b))
+        S.prove_eq(var_t[b], np.diagonal(Cref), "b[%d].variance" % b)
+        S.prove_eq(pvar_t[b], np.diagonal(Cref) + sig, "b[%d].likelihood(posterior).variance" % b)
+        S.prove_eq(np.broadcast_to(cov_s, (B, m, m))[b], Cref, "b[%d].cov (the covariance may be stored un-expanded)" % b)
 
 
 def replaced_targets(S, n, m):
